@@ -467,7 +467,9 @@ def _r4(ck: Checker, prog: Program):
     NAME = sp.Symbol("<name>", real=True)
     SELF = sp.Symbol("self", real=True)
     V = sp.Function("getattr")(SELF, NAME)
-    conv = [g for g in prog.funcs.values() if g.parent is ad and g.kind == "nested" and any(call_name(c) == "tolist" for c in calls_in(g.node))]
+    called = {call_name(c) for c in calls_in(ad.node)}
+    conv = [g for g in prog.funcs.values() if any(call_name(c) == "tolist" for c in calls_in(g.node)) and g.name in called
+            and ((g.parent is ad and g.kind == "nested") or (g.module is ad.module and g.cls is None and g.kind == "function"))]
     cases = None
     why = "construction not recognised"
     loops = [st for st in ad.node.body if isinstance(st, ast.For)]
@@ -518,6 +520,8 @@ def _r4(ck: Checker, prog: Program):
             okk = False
             why = f"the converter `{g.name}` yields {sorted(set(outs))}: arrays are not written as the exact list of their values"
     detail = why
+    if not okk and (why == "construction not recognised" or len(conv) != 1):
+        raise AnalysisError(f"{ad.qualname}: the construction of the dictionary (or its array converter) is not recognised ({why}; {len(conv)} converter(s))")
     if okk:
         ck.ok("C15.R4", ad.qualname, "every name of attrs serialised (arrays via tolist, also inside dicts)", detail=detail[:300])
     else:
